@@ -409,19 +409,24 @@ theorem self_commuting_names_realised (ρ : ℕ → ℝ) : ∀ s ∈ interpreted
     ∃ (a : Ins) (A : Matrix (St 3) (St 3) ℂ), a.name = s ∧ a.sc = true ∧ GateOK 3 ρ a A :=
   interpreted_realised ρ
 
-/-- **targets-only three-qubit gates.**  The library's classes build `TOFFOLI([c1, c2, t])` / `FREDKIN([c, t1, t2])` with
-all qubits as `targets` and no controls; `Instruction` sorts the list, so the rule sees equal target lists for
-`TOFFOLI([0,1,2])` and `TOFFOLI([0,2,1])`, which do not commute.  On a tree whose rule refuses gates with more than
-`k` targets (`lenBound = some k`, `fixes/C05-2.patch`) such an instruction is never flagged and never declared commuting
-with anything; it then falls under the opaque clause of `GateOK`, so `schedule_den_C_tree` covers circuits containing it. -/
-theorem tree_long_targets_never_declared (a b : Ins) (ha : TreeIns a) {k : Nat} (hk : Gen.SchedRule.lenBound = some k)
-    (hl : k < a.targets.length) (hn : a.name ∉ crossNames) : a.sc = false ∧ commRules a b = false ∧ commRules b a = false :=
-  ⟨tree_long_targets_unflagged ha hk hl, commRules_opaque (tree_long_targets_unflagged ha hk hl) hn b⟩
+/-- **gates given by several targets.**  The library's classes build `TOFFOLI([c1, c2, t])`, `TOFFOLI(controls=[c1],
+targets=[c2, t])`, `FREDKIN([c, t1, t2])` with the roles of the qubits encoded in the ORDER of the target list;
+`Instruction` sorts the list, so the rule sees equal target lists (or equal controls) for gates that do not commute.  The
+guards of the same-name part of the tree's rule are regenerated into `Gen.SchedRule.flagged` (`fixes/C05-2.patch`: more
+than two targets; `fixes/C05-4.patch`: more than one target unless the gate's targets are interchangeable).  An
+instruction the tree does not flag is never declared commuting with anything; it then falls under the opaque clause of
+`GateOK`, so `schedule_den_C_tree` covers circuits containing it. -/
+theorem tree_unflagged_never_declared (a b : Ins) (ha : TreeIns a) (hf : Gen.SchedRule.flagged a = false)
+    (hn : a.name ∉ crossNames) : a.sc = false ∧ commRules a b = false ∧ commRules b a = false :=
+  have hs : a.sc = false := by rw [show a.sc = Gen.SchedRule.flagged a from ha, hf]
+  ⟨hs, commRules_opaque hs hn b⟩
 
 /-- the rule WITHOUT that guard (every name of the set flagged, whatever the number of targets) lets ALAP exchange two
 targets-only TOFFOLI gates on the same three qubits: the witness of the finding repaired by `fixes/C05-2.patch` -/
 theorem C05_counterexample_targets_only :
-    gateCycles ⟨true, true, [], false⟩ [⟨"TOFFOLI", [0, 1, 2], [], 1, true⟩, ⟨"TOFFOLI", [0, 1, 2], [], 1, true⟩] = [[1], [0]] := by
+    gateCycles ⟨true, true, [], false⟩ [⟨"TOFFOLI", [0, 1, 2], [], 1, true⟩, ⟨"TOFFOLI", [0, 1, 2], [], 1, true⟩] = [[1], [0]] ∧
+    -- `TOFFOLI(controls=[0], targets=[1, 2])` and `TOFFOLI(controls=[0], targets=[2, 1])` (finding repaired by fixes/C05-4.patch)
+    gateCycles ⟨true, true, [], false⟩ [⟨"TOFFOLI", [1, 2], [0], 1, true⟩, ⟨"TOFFOLI", [1, 2], [0], 1, true⟩] = [[1], [0]] := by
   decide +kernel
 
 /-- an instruction not flagged self-commuting whose name is none of `CNOT X RX Z RZ` is never declared commuting -/
